@@ -30,7 +30,9 @@ import (
 
 // ---------------- HTML: 2^7 option combinations x 4 delimiter sets ----------------
 
-var htmlPieces = []string{`<p>a</p>`, `<ul><li>x</li><li>y</li></ul>`, `<!-- c -->`, `<!--[if IE]><p>i</p><![endif]-->`, `<!--#include virtual="f" -->`, `<input type="text" value="v" disabled="disabled">`, `<a href="u" class='c d' title=t>t</a>`, ` `, `text `, ` more`,
+var unquotedAttr = regexp.MustCompile(`(?i)\s([a-z][a-z0-9-]*)=([a-z0-9_.-]+)(?:\s|/?>|$)`)
+
+var htmlPieces = []string{`<p id="a" title=b lang=en>q</p>`, `<i class=k>i</i>`, `<p>a</p>`, `<ul><li>x</li><li>y</li></ul>`, `<!-- c -->`, `<!--[if IE]><p>i</p><![endif]-->`, `<!--#include virtual="f" -->`, `<input type="text" value="v" disabled="disabled">`, `<a href="u" class='c d' title=t>t</a>`, ` `, `text `, ` more`,
 	`<table><tr><td>1</td><td>2</td></tr></table>`, `<script type="text/javascript">x</script>`, `<b> x </b>`, `<form method="get" action="">f</form>`, `<span> s </span> <em>e</em>`, `<style type="text/css">s{}</style>`, `<td colspan="1">c</td>`, `<option selected="selected">o</option>`, `<dl><dt>t</dt><dd>d</dd></dl>`, "\n",
 	// every element whose end tag is omissible appears at least once (KeepEndTags)
 	`<select><optgroup label="l"><option>1</option></optgroup><optgroup label="m"><option>2</option></optgroup></select>`,
@@ -170,6 +172,14 @@ func checkHTML(in, out string, o htmlOpts) (kind, what string) {
 					hasValue := regexp.MustCompile(`(?i)\b` + regexp.QuoteMeta(n) + `\s*=`).MatchString(y.raw)
 					if present && hasValue && !regexp.MustCompile(`(?i)\b`+regexp.QuoteMeta(n)+`\s*=\s*["']`).MatchString(y.raw) {
 						return "KeepQuotes", fmt.Sprintf("attribute %s is quoted in %q but not in %q", n, x.raw, y.raw)
+					}
+				}
+				// and the other way round: the option preserves the author's spelling, an attribute written without quotes whose
+				// value needs none does not acquire any
+				for _, m := range unquotedAttr.FindAllStringSubmatch(x.raw, -1) {
+					n := strings.ToLower(m[1])
+					if regexp.MustCompile(`(?i)\s` + regexp.QuoteMeta(n) + `\s*=\s*["']` + regexp.QuoteMeta(m[2]) + `["']`).MatchString(y.raw) {
+						return "KeepQuotes", fmt.Sprintf("attribute %s is written without quotes in %q and with quotes in %q", n, x.raw, y.raw)
 					}
 				}
 			}
